@@ -800,7 +800,7 @@ def tr2angvec(T, unit='rad', check=False):
         v = np.r_[0, 0, 0]
     else:
         theta = base.norm(v)
-        v = base.unitvec(v)
+        v = v / theta
 
     if unit == 'deg':
         theta *= 180 / math.pi
